@@ -64,7 +64,7 @@ type ReadPlan struct {
 type SinkPlan struct {
 	// FailAt >= 0: after FailAt bytes have been accepted every write fails. -1: never.
 	FailAt int `json:"fail_at"`
-	// Kind: "ENOSPC" or "EPIPE".
+	// Kind: "ENOSPC", "EPIPE" (from the offset on every write fails) or "EAGAIN" (only the write that crosses the offset fails).
 	Kind string `json:"kind,omitempty"`
 	// Short: the failing call accepts the bytes up to FailAt and returns (n < len, err);
 	// otherwise it accepts nothing and returns (0, err).
